@@ -251,6 +251,9 @@ func (r *Run) Finish(cov Coverage) int {
 		}
 		nviol++
 		exit = 1
+		if nviol > 25 {
+			continue
+		}
 		dir := filepath.Join(Root, "replay", r.ID)
 		os.MkdirAll(dir, 0o755)
 		name := unsafeFile.ReplaceAllString(fp, "_")
@@ -262,6 +265,9 @@ func (r *Run) Finish(cov Coverage) int {
 		os.WriteFile(path, data, 0o644)
 		fmt.Printf("VIOLATION property=%s replay=%s\n", r.ID, path)
 		fmt.Printf("  fingerprint: %s\n  expected: %s\n  observed: %s\n  cases: %d\n", fp, v.Expected, firstLines(v.Observed, 6), v.Count)
+	}
+	if nviol > 25 {
+		fmt.Printf("... and %d more violation fingerprints (not written out)\n", nviol-25)
 	}
 	if r.Replaying {
 		return exit
